@@ -190,6 +190,15 @@ Fixpoint ntree_eqb (a b : ntree) {struct a} : bool :=
 Definition canonical (t : ntree) : bool := ntree_eqb t (canon_tree (eval t)).
 
 Definition is_unm (o : ntree) : bool := match o with NUnm _ _ => true | _ => false end.
+(* contains_unmanaged: a user-controlled part anywhere in the expression *)
+Fixpoint has_unm (o : ntree) : bool :=
+  match o with
+  | NLeaf _ _ => false
+  | NUnm _ _ => true
+  | NLst _ l => existsb has_unm l
+  | NDct l => existsb (fun kt => match kt with (_, t') => has_unm t' end) l
+  | NCall _ pos kws => existsb has_unm pos || existsb (fun kt => match kt with (_, t') => has_unm t' end) kws
+  end.
 Definition elt_eqb (o : ntree) (n : nval) : bool := val_eqb (eval o) n.
 Definition script (olds : list ntree) (news : list nval) : list dir := add_x (align ntree nval elt_eqb olds news).
 
@@ -294,7 +303,7 @@ Definition cassign_kw (c : Z) (fs : list (Z * nval)) (kt : Z * ntree) : list (op
   | None => if f_fix F then [] else [(Some k, QKeep t)]               (* no such field: outside the modelled scope *)
   | Some v =>
       if is_default c k v then
-        if is_unm t then [(Some k, QKeep t)]
+        if has_unm t then [(Some k, QKeep t)]       (* an argument that holds a user-controlled part is never deleted *)
         else if val_eqb (eval t) v
              then (if f_update F then [] else [(Some k, QKeep t)])
              else (if f_fix F then [] else [(Some k, QKeep t)])
